@@ -35,7 +35,7 @@
 EXTENDS Naturals, Integers, Sequences, FiniteSets
 
 CONSTANTS Bug,          \* "" or the name of a seeded mutant of the implementation layer
-          Fix           \* TRUE: implementation layer with the proposed repair (proposed_fixes/C13-1.diff)
+          Fix           \* TRUE: implementation layer with the proposed repairs (proposed_fixes/C13-1.diff, C13-2.diff)
 
 DeviationNames == {"ExceptionAsScore67", "LaterPatternReplacesException", "ExceptionsSplitOnLinesOnly"}
 
